@@ -200,9 +200,6 @@ func c09Line(work, line string, yml bool, tag string, lineNo int, r *rng, every,
 					if tr.gehobNeg == "" {
 						dW := g.WUMAS - pre.WUMAS
 						dO := g.OBMAS - pre.OBMAS
-						if isZRK(pre.FRUCHT[ai]) {
-							dO = (g.OBMAS + g.WORG[3]) - (pre.OBMAS + pre.WORG[3])
-						}
 						if !sowing && pre.GEHOB >= 0 && g.SUM[0] >= g.TSUM[0] && dW > 0 && dO < 0 && dO+dW > 0 && g.WUGEH > pre.WUGEH {
 							tr.gehobNeg = "root-share-above-1"
 						} else {
@@ -369,6 +366,10 @@ func c09Line(work, line string, yml bool, tag string, lineNo int, r *rng, every,
 				}
 			}
 			tied++
+			if grown && growing {
+				c09GrowthOracle(&pre, g, &shadow, gtw, mterm, k1, isZRK(ct), maxup, cnt, mass, diff,
+					func(what string, format string, a ...interface{}) { ofail(g, zeit, what, format, a...) })
+			}
 			// ---- which clamps / branches does this day exercise ----
 			kinds := []string{}
 			if g.INTWICK.Index != pre.INTWICK.Index {
@@ -418,6 +419,25 @@ func c09Line(work, line string, yml bool, tag string, lineNo int, r *rng, every,
 			if pre.LEGUM && g.NFIX > 0 {
 				kinds = append(kinds, "nfix")
 			}
+			if grown {
+				// branches of the root / shoot N concentration update (crop.go:741-763)
+				if g.WUMAS > pre.WUMAS {
+					if g.OBMAS-pre.OBMAS+g.WUMAS-pre.WUMAS > 0 && !isZRK(ct) {
+						kinds = append(kinds, "wugeh-update")
+					}
+					if g.WUGEH == 0.005 {
+						kinds = append(kinds, "wugeh-floor")
+					} else if g.WUGEH == pre.WGMAX[k1] {
+						kinds = append(kinds, "wugeh-cap")
+					}
+				}
+				if isZRK(ct) {
+					kinds = append(kinds, "beet-potato-quota")
+					if g.GEHOB*(g.OBMAS+g.WORG[3]) < (pre.OBMAS+g.WORG[3])*pre.GEHOB {
+						kinds = append(kinds, "zrk-correction")
+					}
+				}
+			}
 			take := every <= 1 || r.intn(every) == 0
 			for _, kd := range kinds {
 				if interesting[kd] < maxInteresting {
@@ -437,7 +457,54 @@ func c09Line(work, line string, yml bool, tag string, lineNo int, r *rng, every,
 			if km < 0 {
 				km = 0
 			}
+			// ---- N-content functions: the day's own evaluation and, by replaying the real code on copies with another
+			// NGEFKT, all other N-content functions on the same state (0 = none: GEHMIN/GEHMAX keep their values)
+			wrsg := ct == hermes.WR || ct == hermes.SG
+			ncs := []jobj{}
+			if grown {
+				ncs = append(ncs, c09NcCase(&pre, g, pre.NGEFKT, wrsg, tendsum))
+				allFkt := r.intn(4) == 0 // the other N-content functions on one emitted day in four
+				for f := 0; f <= 9 && allFkt; f++ {
+					if f == pre.NGEFKT {
+						continue
+					}
+					g4 := pre
+					g4.NGEFKT = f
+					l4 := lPre
+					l4.AboveGroundOrgans = append([]int(nil), lPre.AboveGroundOrgans...)
+					ok4 := true
+					func() {
+						defer func() {
+							if e := recover(); e != nil {
+								ok4 = false
+							}
+						}()
+						hermes.PhytoOut(&g4, &l4, nil, zeit, nil, nil)
+					}()
+					if ok4 && sameF(g4.PHYLLO, g.PHYLLO) {
+						ncs = append(ncs, c09NcCase(&pre, &g4, f, wrsg, tendsum))
+					}
+				}
+			}
+			wumalt, obalt, gehalt := 0.0, 0.0, 0.0
+			if grown {
+				wumalt, gehalt = pre.WUMAS, pre.GEHOB
+				if isZRK(ct) {
+					// crop.go:507 runs after the organ loop: old shoot mass + the already updated storage organ
+					obalt = pre.OBMAS + g.WORG[3]
+				} else {
+					obalt = pre.OBMAS
+				}
+			}
+			proT, deadT := [][]string{}, [][]string{}
+			for s := 0; s < shadow.NRENTW && s < 10; s++ {
+				proT = append(proT, hxs(pre.PRO[s][:]))
+				deadT = append(deadT, hxs(pre.DEAD[s][:]))
+			}
 			emit(jobj{"k": "day", "line": lineNo, "zeit": zeit, "crop": crop, "kinds": kinds,
+				// N content, N quota, tables
+				"nc": ncs, "wumalt": hx(wumalt), "obalt": hx(obalt), "gehalt": hx(gehalt), "wugeh0": hx(pre.WUGEH),
+				"o_gehob": hx(g.GEHOB), "o_wugeh": hx(g.WUGEH), "pro": proT, "dead": deadT,
 				// stage
 				"k0": pre.INTWICK.Index, "sum": hxs(pre.SUM[:]), "tsum": hxs(pre.TSUM[:]), "dev": pre.DEV[:], "nrentw": shadow.NRENTW,
 				"doy": pre.TAG.Index + 1, "temp": hx(temp), "bas": hxs(pre.BAS[:]), "wg00": hx(pre.WG[0][0]), "w0": hx(pre.W[0]), "wmin0": hx(pre.WMIN[0]),
